@@ -2,7 +2,8 @@ from betterproto import casing
 
 
 def pythonize_class_name(name: str) -> str:
-    return casing.pascal_case(name)
+    # e.g. "none" -> "None" or "_1a" -> "1A" are not usable as class names
+    return casing.sanitize_name(casing.pascal_case(name))
 
 
 def pythonize_field_name(name: str) -> str:
